@@ -28,5 +28,13 @@ def readerFooterOffset (version nHB dataBlocks len k : Nat) : Nat :=
 
 def fileLength (nHB dataBlocks len nArrays : Nat) : Nat := 4096 * nHB + 4096 * dataBlocks + nArrays * footerArrayBytes len
 
+/-- `gen_trace_header(t)` on a structured file (read.py:964-985): one 4-byte read per stored array, at the array's offset
+plus `4·t`; fields recorded as duplicates share the value already read -/
+def headerReads (version nHB dataBlocks len nArrays t : Nat) : List (Nat × Nat) :=
+  (List.range nArrays).map fun k => (readerFooterOffset version nHB dataBlocks len k + 4 * t, 4)
+
+/-- range reads made when a reader is opened (read.py:132-139): the first block, then all header blocks -/
+def openReads (nHB : Nat) : List (Nat × Nat) := if nHB = 1 then [(0, 4096)] else [(0, 4096), (0, 4096 * nHB)]
+
 end Container
 end Sgz
